@@ -589,11 +589,7 @@ def judge(ctx, cfg, obs, label=""):
                 if ret["kind"] != "none":
                     ctx.fail("grpc:response-type", f"{kind} {snake(m)} returned {ret['kind']}, expected None", p2)
             elif ret["kind"] != "message" or ret.get("type") != out_t:
-                if m == "WaitOperation" and ret["kind"] == "bytes":
-                    ctx.fail("grpc-wait-operation-raw-bytes", f"{kind} wait_operation over gRPC returns the raw response bytes, not a "
-                             f"google.longrunning.Operation (stub built with response_deserializer=None)", p2)
-                else:
-                    ctx.fail("grpc:response-type", f"{kind} {snake(m)} returned {ret.get('type', ret['kind'])}, expected {out_t}", p2)
+                ctx.fail("grpc:response-type", f"{kind} {snake(m)} returned {ret.get('type', ret['kind'])}, expected {out_t}", p2)
             elif codec.decode(out_t, ret["b64"]) != codec.normal(out_t, RESPONSES[out_t]):
                 ctx.fail("grpc:response-value", f"{kind} {snake(m)} returned {codec.decode(out_t, ret['b64'])}", p2)
     # ------------------------------------------------ T3: REST
